@@ -198,13 +198,13 @@ func checkCountWiring(p *core.Program, r *core.Report, f *ssa.Function) (*ssa.Fu
 		return nil, nil, nil, nil, false
 	}
 	pos := p.InstrPos(at)
+	isRecv := func(root ssa.Value) bool { return isRecipeReceiver(p, root, 0) }
 	recvOK := func(v ssa.Value, path string) bool {
 		ref, ok := core.LoadPath(v)
 		if !ok {
 			return false
 		}
-		al, isAl := ref.Root.(*ssa.Alloc)
-		return isAl && paramCopiedInto(al) == 0 && ref.Path == path
+		return isRecv(ref.Root) && ref.Path == path
 	}
 	// allowed: NewSet() with exactly one Add of the recipe's set-typed field
 	addsOf := func(set ssa.Value) []ssa.Value {
@@ -225,7 +225,7 @@ func checkCountWiring(p *core.Program, r *core.Report, f *ssa.Function) (*ssa.Fu
 	if okA {
 		ref, okP := core.LoadPath(aAdds[0])
 		okA = okP && strings.Count(ref.Path, ".") == 1 && isSetTyped(aAdds[0])
-		if al, isAl := ref.Root.(*ssa.Alloc); !isAl || paramCopiedInto(al) != 0 {
+		if !isRecv(ref.Root) {
 			okA = false
 		}
 	}
@@ -659,4 +659,37 @@ func isUnionOfMembers(f *ssa.Function) (bool, string) {
 		}
 	}
 	return true, ""
+}
+
+// isRecipeReceiver: root is the function's own copy of its value receiver, or its pointer receiver
+// when every in-module caller passes the address of *its* receiver copy or its own such pointer
+// receiver (an unexported method switched from value to pointer receiver still reads the copy the
+// exported entry point made).
+func isRecipeReceiver(p *core.Program, root ssa.Value, depth int) bool {
+	switch x := root.(type) {
+	case *ssa.Alloc:
+		return paramCopiedInto(x) == 0
+	case *ssa.Parameter:
+		if depth > 4 || paramIndex(x) != 0 {
+			return false
+		}
+		if _, isPtr := x.Type().Underlying().(*types.Pointer); !isPtr {
+			return false
+		}
+		callers := p.Callers(x.Parent())
+		if len(callers) == 0 {
+			return false
+		}
+		for _, c := range callers {
+			if !p.InLib(c.Parent()) {
+				return false
+			}
+			args := c.Common().Args
+			if len(args) == 0 || !isRecipeReceiver(p, core.StripType(args[0]), depth+1) {
+				return false
+			}
+		}
+		return true
+	}
+	return false
 }
